@@ -1338,25 +1338,26 @@ func UnmarshalLsAttribute(a *api.LsAttribute) (*bgp.LsAttribute, error) {
 			})
 		}
 
+		// Every TLV is optional on its own: the Opaque Prefix Attribute
+		// and the Prefix-SID do not depend on the IGP Flags TLV, and an
+		// IGP Flags TLV does not imply them.
+		lsAttr.Prefix = bgp.LsAttributePrefix{
+			SrPrefixSIDs:     prefixSIDs,
+			FadPrefixMetrics: fapms,
+		}
 		if a.Prefix.IgpFlags != nil {
-			lsAttr.Prefix = bgp.LsAttributePrefix{
-				IGPFlags: &bgp.LsIGPFlags{
-					Down:          a.Prefix.IgpFlags.Down,
-					NoUnicast:     a.Prefix.IgpFlags.NoUnicast,
-					LocalAddress:  a.Prefix.IgpFlags.LocalAddress,
-					PropagateNSSA: a.Prefix.IgpFlags.PropagateNssa,
-				},
-				Opaque:           &a.Prefix.Opaque,
-				SrPrefixSID:      &a.Prefix.SrPrefixSid,
-				SrPrefixSIDs:     prefixSIDs,
-				FadPrefixMetrics: fapms,
+			lsAttr.Prefix.IGPFlags = &bgp.LsIGPFlags{
+				Down:          a.Prefix.IgpFlags.Down,
+				NoUnicast:     a.Prefix.IgpFlags.NoUnicast,
+				LocalAddress:  a.Prefix.IgpFlags.LocalAddress,
+				PropagateNSSA: a.Prefix.IgpFlags.PropagateNssa,
 			}
-		} else if len(prefixSIDs) > 0 || len(fapms) > 0 {
-			// IgpFlags absent but SR / FAPM TLVs present.
-			lsAttr.Prefix = bgp.LsAttributePrefix{
-				SrPrefixSIDs:     prefixSIDs,
-				FadPrefixMetrics: fapms,
-			}
+		}
+		if len(a.Prefix.Opaque) > 0 {
+			lsAttr.Prefix.Opaque = &a.Prefix.Opaque
+		}
+		if a.Prefix.SrPrefixSid != 0 {
+			lsAttr.Prefix.SrPrefixSID = &a.Prefix.SrPrefixSid
 		}
 	}
 
